@@ -15,5 +15,5 @@ for tc in ET.parse(path).getroot().iter("testcase"):
 os.unlink(path)
 missing = sorted(want - passed)
 print("baseline stable_pass=%d, passing now=%d, missing=%d" % (len(want), len(passed), len(missing)))
-for m in missing: print("  MISSING", m)
+for m in missing[:5]: print("  MISSING", m)
 sys.exit(1 if missing else 0)
